@@ -2,7 +2,7 @@
    Every theorem here is about arbitrary text / arbitrary item lists: no validity assumption. *)
 From hls Require Import Base Float Lex Kinds Types Tags Line Keys Media Master.
 From hls.Generated Require Import Tables.
-From hls.Proofs Require Import Build Parse C12 AttrOrder Lexical TagTextDateRange AttrTables AttrOrder2.
+From hls.Proofs Require Import Build Parse C12 AttrOrder Lexical TagTextDateRange AttrTables AttrOrder2 StepOrder.
 From Coq Require Import Permutation.
 Open Scope N_scope.
 
@@ -184,6 +184,17 @@ Check C12_any_attribute_syntax :
      (forall p, In p extra -> unknown_to "ExtXDateRange" (fst p) /\ starts_with s_Xdash (fst p) = false) ->
      fold_res dr_attr (attr_pairs (render_attrs entries)) a = bind (fold_res dr_attr canon a) (fun a' => Ok a')).
 Print Assumptions C12_any_attribute_syntax.
+
+(* the relative order of playlist-level tags, and of the non-key tags preceding a segment's URI: a block of tags of
+   pairwise different kinds among EXTINF, BYTERANGE, PROGRAM-DATE-TIME, DATERANGE, DISCONTINUITY, MAP and
+   TARGETDURATION, MEDIA-SEQUENCE, PLAYLIST-TYPE, I-FRAMES-ONLY, INDEPENDENT-SEGMENTS, START, ENDLIST, VERSION may be
+   written in any order, whatever follows (EXT-X-KEY and EXT-X-DISCONTINUITY-SEQUENCE are position dependent) *)
+Theorem C12_tag_order : forall l1 l2, Permutation l1 l2 -> NoDup (map kind_of l1) -> forallb free_tag l1 = true ->
+  forall s rest, run_lines s (map tline l1 ++ rest) = run_lines s (map tline l2 ++ rest).
+Proof. exact free_block_order. Qed.
+Check C12_tag_order : forall l1 l2, Permutation l1 l2 -> NoDup (map kind_of l1) -> forallb free_tag l1 = true ->
+  forall s rest, run_lines s (map tline l1 ++ rest) = run_lines s (map tline l2 ++ rest).
+Print Assumptions C12_tag_order.
 
 (* white space around attribute names and values is trimmed by the tokenizer (C01_tokenizer) *)
 
